@@ -560,3 +560,15 @@ package node
 //@   ensures ghost(wbputs, bo.kvsm.store.RockDB.wb) == 0 && ghost(wbdels, bo.kvsm.store.RockDB.wb) == 0
 //@   ensures !bo.batching && (old(bo.batching) ==> len(bo.batchReqIDList) == 0 && len(bo.batchReqRspList) == 0)
 //@   modifies *
+
+// applying a remote snapshot (C19): when the restore FAILED the handler answers the sentinel errIgnoredRemoteApply
+// (and no forced backup), which is what keeps postprocessRemoteApply from advancing the synced position over data
+// that was never applied; only a successful restore reports success
+//@ property C19
+//@ func (kvsm *kvStoreSM) handleCustomRequest(fromClusterSyncer bool, req *InternalRaftRequest, reqID uint64, stop chan struct{}) (bool, error)
+//@   opt only=POST
+//@   opt autoloops
+//@   requires kvsm != nil && kvsm.store != nil && kvsm.store.RockDB != nil && req != nil && kvsm.w != nil
+//@   ensures ghost(restorefails, old(kvsm.store.RockDB)) != old(ghost(restorefails, kvsm.store.RockDB)) ==> result1 == errIgnoredRemoteApply && !result0
+//@   ensures ghost(restores, old(kvsm.store.RockDB)) != old(ghost(restores, kvsm.store.RockDB)) ==> result1 == nil && result0
+//@   modifies *
